@@ -25,3 +25,12 @@ Definition ccv_truthy (v : ccval) : bool :=
   | CVInt z => negb (Z.eqb z 0)
   | CVStr s => match s with [] => false | _ => true end
   end.
+
+(* the load / dump pair of a header_property *)
+Inductive hcodec :=
+| CStr       (* no load / dump: the header text itself *)
+| CInt       (* int / str *)
+| CAge       (* parse_age / dump_age: non-negative seconds *)
+| CSet       (* parse_set_header / dump_header *)
+| CDate      (* parse_date / http_date: over the date contract *)
+| CEnum.     (* an enum constructor / its value: not modelled *)
